@@ -17,7 +17,7 @@ CHUNK = 4
 
 def cases(tier, rng):
     for g in graph_cases(tier, rng):
-        for rep in range(3 if tier == "quick" else 12):
+        for rep in range(6 if tier == "quick" else 16):
             c = dict(g)
             c.update({"mseed": rng.getrandbits(32), "nt": True})
             yield c
